@@ -84,8 +84,8 @@ func (orderEngine) Gen(rng *rand.Rand, tier string, i int) any {
 	// random mixes of dual / v4-only / v6-only / failing / nil-handler / unknown plugins
 	n := rng.Intn(6)
 	for j := 0; j < n; j++ {
-		name := []string{"syn", "syn", "syn", "syn4", "syn6", "syn4", "syn6", "synfail", "synnil", "nosuchplugin", "synfailh"}[rng.Intn(11)]
-		if rng.Intn(3) != 0 && (name == "synfail" || name == "synnil" || name == "nosuchplugin" || name == "synfailh") {
+		name := []string{"syn", "syn", "syn", "syn4", "syn6", "syn4", "syn6", "synfail", "synnil", "nosuchplugin", "synfailh", "synpanic"}[rng.Intn(12)]
+		if rng.Intn(3) != 0 && (name == "synfail" || name == "synnil" || name == "nosuchplugin" || name == "synfailh" || name == "synpanic") {
 			name = "syn"
 		}
 		c.Chain = append(c.Chain, orderPlug{name, behavsMix[rng.Intn(len(behavsMix))]})
@@ -102,7 +102,7 @@ func (orderEngine) Gen(rng *rand.Rand, tier string, i int) any {
 	c.LoadTwice = rng.Intn(2) == 0
 	if rng.Intn(4) == 0 {
 		c.Both = false
-		c.OtherBad = []string{"synfail", "synnil", "nosuchplugin", "synfailh"}[rng.Intn(4)]
+		c.OtherBad = []string{"synfail", "synnil", "nosuchplugin", "synfailh", "synpanic"}[rng.Intn(5)]
 		for j := range c.Chain { // the chain under test itself is clean
 			if c.Chain[j].Name != "syn4" && c.Chain[j].Name != "syn6" {
 				c.Chain[j].Name = "syn"
@@ -232,6 +232,7 @@ func (orderEngine) Run(ctx *fw.Ctx, cs any) {
 	}
 	var want []inst
 	mustFail := ""
+	panics := c.OtherBad == "synpanic" // a setup function that panics: a crash during start-up is an abort too
 	for i, p := range c.Chain {
 		id := i + 1
 		if c.YAML && len(c.Chain) == 1 && pcs[0].Args[1] == "99" {
@@ -249,6 +250,11 @@ func (orderEngine) Run(ctx *fw.Ctx, cs any) {
 		case "synnil":
 			if mustFail == "" {
 				mustFail = "nil handler"
+			}
+		case "synpanic":
+			panics = true
+			if mustFail == "" {
+				mustFail = "panicking setup"
 			}
 		case "syn":
 			want = append(want, inst{id, p.Behav})
@@ -274,7 +280,10 @@ func (orderEngine) Run(ctx *fw.Ctx, cs any) {
 	}
 	if mustFail != "" {
 		ctx.Count("order.must_fail", 1)
-		if out.SetupErr == "" {
+		if panics {
+			ctx.Count("order.must_fail_panicking_setup", 1)
+		}
+		if (!panics && out.SetupErr == "") || (panics && out.SetupOK) {
 			ctx.Viol("C13", "bad-config-accepted:"+strings.ReplaceAll(strings.SplitN(mustFail, ":", 2)[0], " ", "-"), "%s: start-up must abort with an error (%s); it succeeded", desc, mustFail)
 		}
 		return
